@@ -113,6 +113,15 @@ func (ec *evalCache) addConnectionResult(src, dst k8s.Peer, protocol, port strin
 	ec.cache.Add(connectionKey, res)
 }
 
+func (ec *evalCache) removeConnectionResult(src, dst k8s.Peer, protocol, port string) {
+	if ec.cache == nil {
+		return
+	}
+	if connectionKey := ec.keyPerConnection(src, dst, protocol, port); connectionKey != "" {
+		ec.cache.Remove(connectionKey)
+	}
+}
+
 func (ec *evalCache) clear() {
 	if ec.cache == nil {
 		return
